@@ -33,6 +33,89 @@ func copyItem(item map[string]*types.Item) map[string]*types.Item {
 	return copy
 }
 
+// deepCopyItem copies the item with all its values: nothing of the copy can be reached from the original
+func deepCopyItem(item map[string]*types.Item) map[string]*types.Item {
+	copy := make(map[string]*types.Item, len(item))
+	for key, val := range item {
+		copy[key] = deepCopyValue(val)
+	}
+
+	return copy
+}
+
+func deepCopyValue(v *types.Item) *types.Item {
+	if v == nil {
+		return nil
+	}
+
+	out := &types.Item{}
+
+	if v.B != nil {
+		out.B = append([]byte{}, v.B...)
+	}
+
+	if v.BOOL != nil {
+		b := *v.BOOL
+		out.BOOL = &b
+	}
+
+	if v.NULL != nil {
+		b := *v.NULL
+		out.NULL = &b
+	}
+
+	if v.N != nil {
+		n := *v.N
+		out.N = &n
+	}
+
+	if v.S != nil {
+		s := *v.S
+		out.S = &s
+	}
+
+	if v.BS != nil {
+		out.BS = make([][]byte, len(v.BS))
+		for i, b := range v.BS {
+			out.BS[i] = append([]byte{}, b...)
+		}
+	}
+
+	if v.NS != nil {
+		out.NS = copyStringPointers(v.NS)
+	}
+
+	if v.SS != nil {
+		out.SS = copyStringPointers(v.SS)
+	}
+
+	if v.L != nil {
+		out.L = make([]*types.Item, len(v.L))
+		for i, e := range v.L {
+			out.L[i] = deepCopyValue(e)
+		}
+	}
+
+	if v.M != nil {
+		out.M = deepCopyItem(v.M)
+	}
+
+	return out
+}
+
+func copyStringPointers(in []*string) []*string {
+	out := make([]*string, len(in))
+
+	for i, s := range in {
+		if s != nil {
+			c := *s
+			out[i] = &c
+		}
+	}
+
+	return out
+}
+
 func mapSliceType(t reflect.Type) string {
 	e := t.Elem()
 
